@@ -377,6 +377,65 @@ mod rel {
         }
         Ok(n)
     }
+
+    /// C13: a model field printed with arbitrary layout (extra whitespace / newlines, empty entries, optionally a
+    /// substitution variable), normalised by the lossless wrap_and_sort
+    pub fn run_c13() -> Result<usize, Fail> {
+        use debian_control::lossless::relations::Relations as LRelations;
+        let mut r = Rng(crate::seed_mix(0x8CB92BA72F3D8DD7));
+        let mut n = 0;
+        let wsp: &[&str] = &["", " ", "  ", "\n ", " \n  "];
+        for _ in 0..3000 * crate::scale() {
+            let ne = 1 + r.below(3);
+            let rels = Relations((0..ne).map(|_| { let na = 1 + r.below(2); (0..na).map(|_| gen(&mut r)).collect() }).collect());
+            let substvar = r.below(4) == 0;
+            // messy text
+            let mut t = String::new();
+            t.push_str(*r.pick(wsp));
+            if r.below(5) == 0 { t.push_str(", "); }
+            for (i, e) in rels.0.iter().enumerate() {
+                if i > 0 { t.push_str(*r.pick(wsp)); t.push(','); if r.below(6) == 0 { t.push_str(" ,"); } t.push_str(*r.pick(wsp)); }
+                for (j, a) in e.iter().enumerate() {
+                    if j > 0 { t.push_str(*r.pick(wsp)); t.push('|'); t.push_str(*r.pick(wsp)); }
+                    t.push_str(&a.to_string());
+                }
+            }
+            if substvar { t.push_str(", ${misc:Depends}"); }
+            if r.below(5) == 0 { t.push(','); }
+            t.push_str(*r.pick(wsp));
+            n += 1;
+            let (ll, errs) = LRelations::parse_relaxed(&t, true);
+            if !errs.is_empty() { continue; }
+            let shown = t.clone();
+            let out = std::panic::catch_unwind(std::panic::AssertUnwindSafe(|| ll.wrap_and_sort()));
+            let out = match out { Ok(o) => o, Err(_) => return Err(Fail { prop: "C13".into(), input: shown, what: "wrap_and_sort panics".into(), expected: "a field".into(), got: "panic".into() }) };
+            let text = out.to_string();
+            // canonical, sorted text computed from the model
+            let mut entries: Vec<Vec<Relation>> = rels.0.clone();
+            for e in entries.iter_mut() { e.sort_by(|a, b| a.to_string().cmp(&b.to_string())); }
+            let mut meaning: Vec<Vec<String>> = entries.iter().map(|e| e.iter().map(|a| a.to_string()).collect()).collect();
+            meaning.sort();
+            // the result denotes the same dependencies: same multiset of entries, each the same multiset of alternatives
+            let (back, berrs) = LRelations::parse_relaxed(&text, true);
+            if !berrs.is_empty() { return Err(Fail { prop: "C13".into(), input: shown, what: "the normalised field does not parse strictly".into(), expected: "no errors".into(), got: format!("{:?} for {:?}", berrs, text) }); }
+            let view = |f: &LRelations| -> Vec<Vec<String>> {
+                let mut v: Vec<Vec<String>> = f.entries().map(|e| { let mut a: Vec<String> = e.relations().map(|x| {
+                    let lossy = Relation { name: x.name(), archqual: x.archqual(), version: x.version(), architectures: x.architectures().map(|a| a.collect()), profiles: x.profiles().collect() };
+                    lossy.to_string() }).collect(); a.sort(); a }).filter(|a: &Vec<String>| !a.is_empty()).collect();
+                v.sort(); v };
+            let got = view(&back);
+            if got != meaning { return Err(Fail { prop: "C13".into(), input: shown, what: "the normalised field does not denote the same dependencies".into(), expected: format!("{:?}", meaning), got: format!("{:?} from {:?}", got, text) }); }
+            if substvar && !text.contains("${misc:Depends}") { return Err(Fail { prop: "C13".into(), input: shown, what: "a substitution variable was dropped".into(), expected: "${misc:Depends} kept".into(), got: text }); }
+            // single-line canonical text: ', ' between entries, ' | ' between alternatives, each relation in canonical form
+            if text.contains('\n') || text.contains("  ") || text.starts_with(' ') || text.ends_with(' ') || text.contains(" ,") || text.contains(",,") || text.ends_with(',') {
+                return Err(Fail { prop: "C13".into(), input: shown, what: "the normalised text is not single-line canonical".into(), expected: "entries joined by ', ', alternatives by ' | ', single spaces".into(), got: text });
+            }
+            // idempotent
+            let again = back.wrap_and_sort().to_string();
+            if again != text { return Err(Fail { prop: "C13".into(), input: shown, what: "normalising the result again changes it".into(), expected: text, got: again }); }
+        }
+        Ok(n)
+    }
     pub fn run() -> Result<usize, Fail> {
         let mut r = Rng(crate::seed_mix(0xD1B54A32D192ED03));
         let mut n = 0;
@@ -906,14 +965,18 @@ mod typed20 {
     fn lossless(text: &str) -> Option<Vec<Vec<(String, String)>>> {
         deb822_lossless::Deb822::from_str(text).ok().map(|d| d.paragraphs().map(|p| p.items().collect()).collect())
     }
-    fn stable<T>(kind: &str, text: &str, parse: &dyn Fn(&str) -> Result<T, String>, print: &dyn Fn(&T) -> String) -> Result<(), Fail> {
+    fn stable<T>(kind: &str, text: &str, parse: &dyn Fn(&str) -> Result<T, String>, print: &dyn Fn(&T) -> String) -> Result<(), Fail> { stable_eq(kind, text, parse, print, None, true) }
+    /// `same_order`: the printer keeps the paragraph order of the text, so the printed text must show the lossless reader the same fields
+    fn stable_eq<T>(kind: &str, text: &str, parse: &dyn Fn(&str) -> Result<T, String>, print: &dyn Fn(&T) -> String, eq: Option<&dyn Fn(&T, &T) -> bool>, same_order: bool) -> Result<(), Fail> {
         let v = match parse(text) { Ok(v) => v, Err(e) => return Err(fail(text, &format!("{}: a well-formed document is rejected", kind), "Ok".into(), e)) };
         let t2 = print(&v);
         let v2 = match parse(&t2) { Ok(v) => v, Err(e) => return Err(fail(text, &format!("{}: the printed value does not parse", kind), format!("Ok for {:?}", t2), e)) };
+        if let Some(eq) = eq { if !eq(&v, &v2) { return Err(fail(text, &format!("{}: the printed value parses to a different value", kind), "an equal value".into(), format!("printed {:?}", t2))); } }
         let t3 = print(&v2);
         if t3 != t2 { return Err(fail(text, &format!("{}: printing, parsing and printing again gives a different text", kind), format!("{:?}", t2), format!("{:?}", t3))); }
         // field by field what the lossless reader shows for the same text (the sample texts are canonical)
         let (a, b) = (lossless(text), lossless(&t2));
+        if !same_order { return Ok(()); }
         if let (Some(a), Some(b)) = (a, b) {
             if a != b { return Err(fail(text, &format!("{}: the typed value does not carry what the lossless reader shows for the text", kind), format!("{:?}", a), format!("{:?}", b))); }
         }
@@ -936,6 +999,15 @@ mod typed20 {
             for _ in 0..nb { t.push('\n'); t.push_str(&para_text(bin, m.as_ref())); }
             stable("lossy Control", &t, &pc, &dc)?; n += 1;
         } }
+        // a binary paragraph may carry a Source field of its own (as apt's binary stanzas do): still one source, the same binaries
+        {
+            let t = format!("{}\n{}Source: other\n\n{}", para_text(src, &|_| false), para_text(bin, &|_| false), para_text(bin, &|_| true));
+            match pc(&t) {
+                Ok(c) => { if c.binaries.len() != 2 { return Err(fail(&t, "lossy Control: paragraphs with a Package field are the binaries", "2 binaries".into(), format!("{}", c.binaries.len()))); } }
+                Err(e) => return Err(fail(&t, "lossy Control: a binary paragraph that also has a Source field makes the document rejected", "Ok".into(), e)),
+            }
+            n += 1;
+        }
         let s1 = para_text(src, &|_| false); let b1 = para_text(bin, &|_| false);
         rejected("lossy Control", &b1, "has no source paragraph", &pc)?;
         rejected("lossy Control", &format!("{}\n{}", s1, s1), "has two source paragraphs", &pc)?;
@@ -954,6 +1026,18 @@ mod typed20 {
             if !t.starts_with("Format:") { continue; }
             stable("lossy Copyright", &t, &pcr, &dcr)?; n += 1;
         } }
+        // Files and License paragraphs in any order keep their roles
+        for order in [[false, true, true, false], [true, false, true, false], [false, false, true, true]] {
+            let mut t = para_text(hd, &|_| true);
+            for is_lic in order { t.push('\n'); t.push_str(&para_text(if is_lic { li } else { fl }, &|_| true)); }
+            if !t.starts_with("Format:") { continue; }
+            match pcr(&t) {
+                Ok(c) => { if c.files.len() != 2 || c.licenses.len() != 2 { return Err(fail(&t, "lossy Copyright: paragraphs with a Files field are Files paragraphs, the others with a License field are licences", "2 files, 2 licences".into(), format!("{} files, {} licences", c.files.len(), c.licenses.len()))); } }
+                Err(e) => return Err(fail(&t, "lossy Copyright: a well-formed document is rejected", "Ok".into(), e)),
+            }
+            stable_eq("lossy Copyright", &t, &pcr, &dcr, Some(&|a: &debian_copyright::lossy::Copyright, b: &debian_copyright::lossy::Copyright| a == b), false)?;
+            n += 1;
+        }
         let h1 = para_text(hd, &|_| false);
         rejected("lossy Copyright", &format!("X-First: 1\n{}", h1), "does not start with Format:", &pcr)?;
         rejected("lossy Copyright", &format!("{}\nX-Other: 1\n", h1), "has a paragraph that is neither Files nor License", &pcr)?;
@@ -976,6 +1060,20 @@ mod typed20 {
             use deb822_lossless::ToDeb822Paragraph;
             single!("lossy Removal", "debian_control::lossy::ftpmaster::Removal", |s: &str| debian_control::lossy::ftpmaster::Removal::from_str(s), |v: &debian_control::lossy::ftpmaster::Removal| { let p: deb822_lossless::lossy::Paragraph = v.to_paragraph(); p.to_string() });
             single!("lossy Buildinfo", "debian_control::lossy::buildinfo::Buildinfo", |s: &str| debian_control::lossy::buildinfo::Buildinfo::from_str(s).map_err(|e| e.to_string()), |v: &debian_control::lossy::buildinfo::Buildinfo| { let p: deb822_lossless::lossy::Paragraph = v.to_paragraph(); p.to_string() });
+        }
+        // value level: the words of a whitespace-separated list field are its elements; an edited value survives print / parse
+        {
+            let rows = table("debian_control::lossy::apt::Source");
+            let t = para_text(rows, &|_| true);
+            let ps = |s: &str| debian_control::lossy::apt::Source::from_str(s);
+            if let Ok(mut v) = ps(&t) {
+                let want: Option<Vec<String>> = rows.iter().find(|r| r.0 == "Binary").map(|r| r.1.split_whitespace().map(|w| w.to_string()).collect());
+                if v.binaries != want { return Err(fail(&t, "lossy apt Source: the Binary field lists the binaries separated by whitespace", format!("{:?}", want), format!("{:?}", v.binaries))); }
+                v.binaries = Some(vec!["foo".to_string(), "libfoo1".to_string(), "libfoo-dev".to_string()]);
+                let t2 = v.to_string();
+                match ps(&t2) { Ok(v2) => { if v2 != v { return Err(fail(&t2, "lossy apt Source: a value with three binaries does not survive print / parse", format!("{:?}", v.binaries), format!("{:?}", v2.binaries))); } } Err(e) => return Err(fail(&t2, "lossy apt Source: the printed value does not parse", "Ok".into(), e)) }
+            }
+            n += 1;
         }
         // several repositories in one sources file
         let rp = table("apt_sources::Repository");
@@ -1015,6 +1113,10 @@ fn main() {
     }
     if prop == "C17" {
         match cpr::run() { Ok(n) => { eprintln!("vwit C17: no failing input among {} lookups", n); return; } Err(f) => f.print_and_exit() }
+    }
+    if prop == "C13" {
+        std::panic::set_hook(Box::new(|_| {}));
+        match rel::run_c13() { Ok(n) => { eprintln!("vwit C13: no failing input among {} relation fields", n); return; } Err(f) => f.print_and_exit() }
     }
     if prop == "C10" {
         match rel::run_lossless() {
